@@ -129,6 +129,64 @@ def case_outbound(p):
     return out
 
 
+def case_outbound_cancel(p):
+    """A request of n1 bytes is started and its caller is cancelled after k loop iterations (k = 0: before it ever ran); then a request of n2
+    bytes is made on the same protocol object.  Whatever reached the transport while it was open is judged by the reference accessory: every
+    frame authenticates in order, and the plaintext is made of whole requests (the abandoned one entirely or not at all) - unless the session
+    was ended (transport closed), after which nothing more may follow."""
+    loop = vloop.VirtualLoop().install()
+    out = []
+    try:
+        proto = make_secure(0)
+        proto.result_cbs = []
+
+        class Tr(_RecTransport):
+            def writelines(self, lines):
+                if not self.closed:
+                    super().writelines(lines)
+
+            def write(self, data):
+                if not self.closed:
+                    super().write(data)
+
+        tr = Tr()
+        proto.connection_made(tr)
+        framer = ipacc.Framer(A2C, C2A)
+        pay = [bytes(((j * 31 + n + i) % 256) for j in range(n)) for i, n in enumerate(p["lengths"])]
+        t1 = loop.create_task(proto.send_bytes(pay[0]))
+        for _ in range(p["cancel_after"]):
+            loop.run_batch() if loop.has_ready() else None
+        t1.cancel()
+        loop.run_until_idle()
+        closed_after_first = tr.closed
+        rest = []
+        for x in pay[1:]:
+            rest.append(loop.create_task(proto.send_bytes(x)))
+            loop.run_until_idle()
+        wire = b"".join(d for _, d in tr.calls)
+        got = framer.open(wire)
+        det = {"lengths": p["lengths"], "cancel_after_iterations": p["cancel_after"], "first_request_done": t1.done() and not t1.cancelled(), "session_ended_by_the_cancel": closed_after_first, "wire_bytes": len(wire)}
+        if framer.broken:
+            out.append(("outbound:frames-after-an-abandoned-request-do-not-authenticate", dict(det, why=str(framer.why)[:160], frames_ok=len(framer.frames_in))))
+        else:
+            # whole requests only (the abandoned one: entirely, or not at all), in order; after an ended session nothing needs to arrive
+            ok = False
+            for first in (pay[0], b""):
+                want = first + b"".join(pay[1:])
+                if got == want or (tr.closed and want.startswith(got)):
+                    ok = True
+            if not ok:
+                out.append(("outbound:plaintext-after-an-abandoned-request-is-not-made-of-whole-requests", dict(det, got_len=len(got))))
+            if framer.buf and not tr.closed:
+                out.append(("outbound:trailing-partial-frame", dict(det, left=len(framer.buf))))
+        for t in rest:
+            t.cancel()
+        loop.run_until_idle()
+    finally:
+        loop.shutdown()
+    return out
+
+
 # ---------------------------------------------------------------------------- inbound
 MSG_SMALL = dict(kind="HTTP/1.1", code=200, reason="OK", headers=[("Content-Type", "application/hap+json")], framing="cl", body=b'{"characteristics":[{"aid":1,"iid":9,"value":true}]}')
 MSG_204 = dict(kind="HTTP/1.1", code=204, reason="No Content", headers=[], framing="none")
@@ -483,7 +541,7 @@ def case_e2e_corrupt(p):
     return out
 
 
-CASES = {"bigreads": case_bigreads, "send_between": case_send_between, "framesplits": case_framesplits, "e2e_corrupt": case_e2e_corrupt, "outbound": case_outbound, "graph": case_graph, "cuts": case_cuts, "corrupt": case_corrupt, "e2e": case_e2e}
+CASES = {"outbound_cancel": case_outbound_cancel, "bigreads": case_bigreads, "send_between": case_send_between, "framesplits": case_framesplits, "e2e_corrupt": case_e2e_corrupt, "outbound": case_outbound, "graph": case_graph, "cuts": case_cuts, "corrupt": case_corrupt, "e2e": case_e2e}
 
 
 def _work(item, seed, tier):
@@ -511,6 +569,11 @@ def run(ctx):
     for i in range(0, len(lens), 50):
         work.append(("outbound", {"lengths": lens[i : i + 50]}))
     work.append(("outbound", {"lengths": [1023, 1024, 1025, 2047, 2048, 2049, 3072, 3073, 1, 0, 1024, 1024 * 8 + 1, 65536, 65537]}))
+    # a request abandoned by its caller after k loop iterations (small, several blocks, beyond 64 KiB and 128 KiB), then another one
+    for n1 in (1, 1024, 5000, 65536, 65537, 70000, 140000, 200000) if quick else (0, 1, 1023, 1024, 1025, 5000, 32768, 65535, 65536, 65537, 70000, 131072, 131073, 140000, 200000, 300000, 600000):
+        for k in range(0, 6 if quick else 12):
+            for tail in ([100], [100, 3000]) if quick else ([100], [100, 3000], [70000]):
+                work.append(("outbound_cancel", {"lengths": [n1] + tail, "cancel_after": k}))
     # inbound graphs (small streams)
     graphs = [
         ([MSG_SMALL], [1024]), ([MSG_204], [2]), ([MSG_SMALL, MSG_EVENT], [40]), ([MSG_204, MSG_EVENT, MSG_204], [1024]),
